@@ -15,6 +15,9 @@ type Shape struct {
 	Chain    []byte // PCK certificate chain bytes (certification data type 5)
 	Extra    []byte // bytes after the signed data (nil for none)
 	SpareCap int    // extra capacity behind every byte field (0: cap == len)
+	// WideInts: the uint32 message fields that occupy 2 bytes on the wire (QE ISV product id and
+	// SVN) are unconstrained 32-bit values; a structurally valid message has them below 2^16.
+	WideInts bool
 }
 
 func field(name string, n, spare int) []byte {
@@ -28,6 +31,10 @@ func field(name string, n, spare int) []byte {
 // its inputs.
 func Valid(p string, s Shape) *pb.QuoteV4 {
 	sp := s.SpareCap
+	isvProd, isvSvn := uint32(vp.U16(p+"qe_isvprodid")), uint32(vp.U16(p+"qe_isvsvn"))
+	if s.WideInts {
+		isvProd, isvSvn = vp.U32(p+"qe_isvprodid32"), vp.U32(p+"qe_isvsvn32")
+	}
 	rt := make([][]byte, 4)
 	for i := range rt {
 		rt[i] = field(p+"rtmr"+string(rune('0'+i)), 48, sp)
@@ -73,8 +80,8 @@ func Valid(p string, s Shape) *pb.QuoteV4 {
 						Reserved2:  field(p+"qe_res2", 32, sp),
 						MrSigner:   field(p+"qe_mrsigner", 32, sp),
 						Reserved3:  field(p+"qe_res3", 96, sp),
-						IsvProdId:  uint32(vp.U16(p + "qe_isvprodid")),
-						IsvSvn:     uint32(vp.U16(p + "qe_isvsvn")),
+						IsvProdId:  isvProd,
+						IsvSvn:     isvSvn,
 						Reserved4:  field(p+"qe_res4", 60, sp),
 						ReportData: field(p+"qe_reportdata", 64, sp),
 					},
